@@ -183,6 +183,21 @@ CHECKS["C16"] = (
     "5/C16",
 )
 
+CHECKS["C17"] = (
+    "model_checking",
+    "grammar-bounded exhaustive enumeration of formula trees and operator chains executed on the real parser/evaluator against the source tree's reference value",
+    "All well-typed formula trees with <= 2 operator/function nodes over the full alphabet, all 3-node trees over a "
+    "reduced alphabet, each of the 34 functions/constants in every depth-<=2 context and all chains of 4 binary "
+    "operators (plus one unary prefix at every position) are printed minimally parenthesised, fully parenthesised and "
+    "without spaces, loaded with Function.create and evaluated via Function.membership on 4 scalar assignments and "
+    "arrays. The implementation's postfix must equal the tree's postfix, its values the documented mathematics of the "
+    "source tree, the reference RPN evaluation of its postfix the same values; every ill-formed variant (operand "
+    "deleted, argument added/removed, parenthesis added/removed) must be rejected.",
+    "Literals exact at 3 decimals; variables x (argument), y (term variable), i (engine input); numpy vs math agree "
+    "within 1e-9 relative; chains are parsed by a reference Pratt parser of the documented table.",
+    "5/C17",
+)
+
 REASON_NOT_BUILT = "check not built yet in this phase (planned in DESIGN.md section 5); no claim is made"
 
 
